@@ -151,13 +151,29 @@ impl ErrorMessages {
             let Ok(source) = cache.fetch(source_path) else {
                 continue;
             };
+            if e.location.is_some() {
+                // already composed: the span counts characters by now
+                continue;
+            }
+            // Spans are made of the offsets of tokens, which count bytes of the source
+            // text. `ErrorMessage::span`, the line table of the source and the report
+            // count characters, which is the same thing for ASCII text only.
+            let text = source.text();
+            let to_char = |byte: usize| text.get(..byte).map(|s| s.chars().count());
+            if let (Some(start), Some(end)) = (to_char(span.start), to_char(span.end)) {
+                e.span = Some(Span {
+                    start,
+                    end,
+                    source_id: span.source_id,
+                });
+            }
             e.location = e.compose_location(source);
 
             assert!(
                 e.location.is_some(),
                 "span {:?} is out of bounds of the source (len = {})",
                 e.span,
-                source.len()
+                source.text().len()
             );
             e.display = e.compose_display(source_path.clone(), &mut cache);
         }
